@@ -482,6 +482,8 @@ def _gen_ts_case(rng, kind=None):
         lo = xmin + (xmax - xmin) * rng.uniform(0.3, 0.6)
         if style == 'boss':
             lo = math.floor(lo) + 0.5
+        if xmin <= 0.0 < xmax and rng.random() < 0.25:
+            lo = 0.0            # a jump that starts exactly at pixel 0 is still a jump
         hi = lo + rng.choice([2.0, 2.0, 1.0, 5.5])
         val = rng.choice([1.0 / 3, 0.33333334, -0.25, 0.8, 0.0])
         c['xjumplo'], c['xjumphi'], c['xjumpval'] = lo, hi, val
@@ -558,6 +560,12 @@ def _gen_xy_case(rng):
     if rng.random() < 0.5:
         lo = math.floor(xmin + (xmax - xmin) * rng.uniform(0.2, 0.7)) + 0.5
         c['xjumplo'], c['xjumphi'], c['xjumpval'] = lo, lo + rng.choice([1.0, 2.0, 4.0]), rng.choice([0.25, -0.5, 0.375, 1.0 / 3])
+        if xmin <= 0.0 and rng.random() < 0.3:
+            # zero is a legitimate jump position: xjumplo == 0, or xjumphi == 0 when the range starts below 0
+            if xmin < -2.0 and rng.random() < 0.5:
+                c['xjumplo'], c['xjumphi'] = -2.0, 0.0
+            else:
+                c['xjumplo'], c['xjumphi'] = 0.0, rng.choice([1.0, 2.0, 4.0])
         if rng.random() < 0.4:
             # single-precision columns as in the BOSS files; values exactly representable so that hi - lo is exact in float32
             c['jumpfmt'] = 'E'
